@@ -205,9 +205,22 @@ fn build_chain(tx: &Tx) -> (Vec<Box<dyn Block + Send>>, Frames) {
     (blocks, store)
 }
 
-fn compare(tx: &Tx, got: &[Vec<u8>], runner: &str) -> RunResult {
+fn compare(tx: &Tx, got: &[Vec<u8>], runner: &str, ctx: &mut RunCtx) -> RunResult {
     if got == tx.frames.as_slice() {
         return Ok(());
+    }
+    // One delivered frame that resembles nothing transmitted, everything else
+    // exactly right: a 16-bit FCS lets about one in 65536 flag-delimited noise
+    // stretches through, and the filters' round-off on the silence after the
+    // transmission is such noise (about one run in 40000 here). Tolerated per
+    // run, counted, and bounded per batch in finish().
+    let strangers: Vec<&Vec<u8>> = got.iter().filter(|g| !tx.frames.contains(g)).collect();
+    if strangers.len() == 1 {
+        let rest: Vec<Vec<u8>> = got.iter().filter(|g| tx.frames.contains(g)).cloned().collect();
+        if rest == tx.frames {
+            ctx.count("untransmitted_frame_with_valid_fcs");
+            return Ok(());
+        }
     }
     let desc = format!(
         "{} baud at {} Hz, {} frames of {:?} bytes, preamble {} flags",
@@ -226,7 +239,13 @@ fn compare(tx: &Tx, got: &[Vec<u8>], runner: &str) -> RunResult {
     };
     Err(Violation::new(
         format!("{key}:{}:{runner}", if tx.baud9600 { "9600" } else { "1200" }),
-        format!("{runner}: {desc}: {} frames delivered (sizes {:?}), {} transmitted", got.len(), got.iter().map(|f| f.len()).collect::<Vec<_>>(), tx.frames.len()),
+        format!(
+            "{runner}: {desc}: {} frames delivered (sizes {:?}), {} transmitted; not transmitted: {:02x?}",
+            got.len(),
+            got.iter().map(|f| f.len()).collect::<Vec<_>>(),
+            tx.frames.len(),
+            got.iter().filter(|g| !tx.frames.contains(g)).map(|g| &g[..g.len().min(40)]).collect::<Vec<_>>()
+        ),
     ))
 }
 
@@ -243,6 +262,7 @@ impl Check for E2eCheck {
             "noiseless channel, amplitude 0.5 (audio) / 0.8 (baseband), +-3 kHz deviation for 9600 baud".into(),
             "'zero-crossing clock recovery' = the ZeroCrossing block in place of SymbolSync in the 9600 chain".into(),
             "transmissions end with 30000-40000 samples of silence so that the block filters flush".into(),
+            "one untransmitted frame per run is put down to the 16-bit FCS (filter round-off on the silence is noise to the deframer) as long as everything transmitted is delivered in order; more than 2 + runs/4000 such runs in a batch is a violation".into(),
         ]
     }
     fn real_vs_stub(&self) -> Value {
@@ -256,6 +276,16 @@ impl Check for E2eCheck {
     }
     fn required(&self, _tier: Tier) -> Vec<&'static str> {
         vec!["chain_1200", "chain_9600", "mt_leg", "graph_leg", "frames_decoded"]
+    }
+    fn finish(&self, _tier: Tier, agg: &mut crate::engine::Agg) -> Vec<Violation> {
+        // FCS false accepts are expected at about 1 per 40000 runs; far more
+        // than that means frames are being let through unchecked.
+        let n = agg.counters.get("untransmitted_frame_with_valid_fcs").copied().unwrap_or(0);
+        let bound = 2 + agg.evaluations / 4000;
+        if n > bound {
+            return vec![Violation::new("C20:untransmitted-frames", format!("{n} runs of {} delivered a frame that was never transmitted (at most {bound} can be put down to the 16-bit FCS)", agg.evaluations))];
+        }
+        vec![]
     }
     fn run(&self, src: &mut Src, ctx: &mut RunCtx) -> RunResult {
         let mt = src.chance(1, 8);
@@ -291,7 +321,7 @@ impl Check for E2eCheck {
             Ok((Err(e), _)) => return ctx.tolerate(Violation::new("C20:graph-run-err", e)),
             Ok((Ok(()), got)) => got,
         };
-        if let Err(v) = compare(&tx, &got_graph, "Graph") {
+        if let Err(v) = compare(&tx, &got_graph, "Graph", ctx) {
             return ctx.tolerate(v);
         }
         ctx.add("frames_decoded", got_graph.len() as u64);
@@ -346,7 +376,7 @@ impl Check for E2eCheck {
         let o = out.lock().unwrap().take();
         match o {
             Some((Ok(()), got)) => {
-                if let Err(v) = compare(&tx, &got, "MTGraph") {
+                if let Err(v) = compare(&tx, &got, "MTGraph", ctx) {
                     return ctx.tolerate(v);
                 }
                 if got != got_graph {
